@@ -20,7 +20,7 @@ use ciphercore_base::inline::inline_ops::InlineConfig;
 use ciphercore_base::mpc::mpc_compiler::IOStatus;
 use serde_json::json;
 
-pub const HEADER: &str = "From Coq Require Import Ring.\nFrom CC Require Import Base.Prelude Base.Scalar Base.Ty Base.Shape Graph.Value Graph.IR Graph.Eval Model.RingEval Model.RingEvalInst.";
+pub const HEADER: &str = "From Coq Require Import Ring.\nFrom CC Require Import Base.Prelude Base.Scalar Base.Ty Base.Shape Graph.Value Graph.IR Graph.Eval Model.RingEval Model.RingEvalInst Model.MpcCompile.";
 
 /// the compiled graph's input values for an owner vector: Shared inputs are presented as shares
 pub fn present_inputs(input_types: &[Type], owners: &[IOStatus], plain: &[Value], rng: &mut Rng) -> Vec<Value> {
@@ -241,6 +241,8 @@ pub fn run(tier: &str, seed: u64, out: &mut Out) {
         out.stat("stream:broadcast-mix");
         end_to_end(&p, &owners, &outs, mname, mode, &mut rng, out, 1, &move |r: &mut Rng| its.iter().map(|t| gen_value(t, r)).collect(), "broadcast-mix");
     }
+    // deep model of the compiler: literal tie
+    crate::c01deep::run(tier, &mut rng, out);
     // (1) joins and sort
     let jts = [JoinType::Union, JoinType::Inner, JoinType::Left, JoinType::Full];
     for i in 0..n_special {
